@@ -53,3 +53,57 @@ Definition scan_retry (s : raw_store) (fv : option bytes) (parts : partition_fn)
               SrRes (ScOk (fold_left N.add (map wres_count ws) 0) (fold_left rcv_merge forks rc) (map rcv_close forks))
       end
   end.
+
+(* ---------- rangeWithLimit under an iterator fault: scanner.go:104-133 ----------
+   The limited path calls worker.run ONCE, without runWithBackoffRetry: `_, err = w.run(ctx, receiver); if err != nil
+   { return nil, err }`.  fault = Some n: the engine iterator of that single attempt fails at its (n+1)-th Next
+   (n = 0 also stands for store.Iter itself failing).  If the receiver has its `limit` results before that call is
+   made (the loop condition needMore() is false: WLimit) the failing call never happens and the answer is the
+   fault-free one; otherwise worker.run returns `0, err`, the kvs appended so far are dropped with the receiver and the
+   response is an error.  A position behind the end of the iterator (length recs < n) is never reached: io.EOF first. *)
+Inductive range_fault_res := RfIterErr | RfRes (r : range_res).
+
+Definition range_limited_fault (s : raw_store) (fv : option bytes) (start end_ : bytes) (R : N) (limit : Z)
+    (fault : option nat) : range_fault_res :=
+  match floor_check fv R with
+  | FPanic => RfRes RgPanic
+  | FErr => RfRes RgErr
+  | FOk =>
+      let recs := iter s start end_ in
+      let rc := RCommon limit [] in
+      let free := match worker_run R recs rc with WRPanic => RfRes RgPanic | WROk _ rc' => RfRes (RgOk (rcv_result rc')) end in
+      match fault with
+      | None => free
+      | Some n =>
+          if (length recs <? n)%nat then free
+          else
+            match wloop R (firstn n recs) (mkW [] 0 [] (rcv_reset rc) 0) with
+            | WPanic => RfRes RgPanic
+            | WLimit st => RfRes (RgOk (rcv_result (w_rc st)))      (* `return 0, nil`: limit reached before the fault *)
+            | WEof _ => RfIterErr                                   (* it.Next failed: `return nil, err`, no data *)
+            end
+      end
+  end.
+
+(* Backend.List with limit > 0 under such a fault: range.go:124-174; error class 4 = error from the engine iterator *)
+Definition list_limited_fault (s : raw_store) (fv : option bytes) (cur : N)
+    (key end_ : bytes) (revision : N) (limit : Z) (fault : option nat) : list_resp :=
+  match end_ with
+  | [] => LErr 1
+  | _ :: _ =>
+      let req := if revision =? 0 then cur else revision in
+      if negb (bltb key end_) then LErr 2
+      else
+        let lim1 := (if (limit =? max_i64)%Z then min_i64 else limit + 1)%Z in
+        if negb (0 <? lim1)%Z then list_model s fv single_part cur key end_ revision limit   (* not the limited path *)
+        else
+        match range_limited_fault s fv (encode key 0) (encode end_ 0) req lim1 fault with
+        | RfIterErr => LErr 4
+        | RfRes RgPanic => LPanic
+        | RfRes RgErr => LErr 3
+        | RfRes (RgOk kvs) =>
+            if (limit <? Z.of_nat (length kvs))%Z
+            then LResp cur (firstn (Z.to_nat limit) kvs) true
+            else LResp cur kvs false
+        end
+  end.
